@@ -70,8 +70,16 @@ def observe_case(spec):
     if case['cyclic'] and not spec.get('allow_cyclic'):
         case['skip'] = 'derivation cycle'
         return case
+    mt = bool(spec.get('multitok'))
+    case['multitok'] = mt
+    T4 = tree4
+    if mt:
+        from . import mtok
+        T4 = mtok.tree4m
     for name, parser, lexer in CFGS:
         if spec.get('only_explicit') or (parser == 'cyk' and not spec.get('cyk')):
+            continue
+        if 'lexers' in spec and (parser != 'earley' or lexer not in spec['lexers']):
             continue
         try:
             with O.budget(5 if parser == 'cyk' else 30):
@@ -81,13 +89,17 @@ def observe_case(spec):
     explicit = {}
     if spec.get('explicit'):
         for name, parser, lexer in CFGS[:3]:
+            if 'lexers' in spec and lexer not in spec['lexers']:
+                continue
             try:
                 explicit[name] = Lark(gtext, parser='earley', lexer=lexer, ambiguity='explicit', keep_all_tokens=ka, maybe_placeholders=ph)
             except Exception:
                 pass
-    for w in spec['inputs']:
-        text = E.to_text(w)
-        if not case['cyclic'] and E.deriv_count(brules, list(w), cap=spec.get('deriv_cap', 80)) > spec.get('deriv_cap', 80):
+    for wi, w in enumerate(spec['inputs']):
+        text = ''.join(w) if mt else E.to_text(w)
+        toks = spec['toks'][wi] if mt else []
+        cap = spec.get('deriv_cap', 80)
+        if (mtok.deriv_total(brules, toks, cap) if mt else (not case['cyclic'] and E.deriv_count(brules, list(w), cap=cap))) > cap:
             case['too_ambiguous'] = case.get('too_ambiguous', 0) + 1
             continue
         obs = []
@@ -95,7 +107,7 @@ def observe_case(spec):
             try:
                 with O.budget(20):
                     t = parsers[name].parse(text)
-                obs.append({'cfg': name, 'out': 0, 'tree': tree4(t), 'must': False})
+                obs.append({'cfg': name, 'out': 0, 'tree': T4(t), 'must': False})
             except (UnexpectedInput, ParseError):
                 obs.append({'cfg': name, 'out': 1, 'tree': ['N', '', 0, []], 'must': bool(spec.get('must')) and name.startswith('earley')})
             except (Exception, O.Hang) as ex:
@@ -105,7 +117,7 @@ def observe_case(spec):
             try:
                 with O.budget(20):
                     t = explicit[name].parse(text)
-                rec = {'cfg': name, 'out': 0, 'tree': tree4(t), 'collrun': False, 'collok': True, 'coll': []}
+                rec = {'cfg': name, 'out': 0, 'tree': T4(t), 'collrun': False, 'collok': True, 'coll': []}
                 if expand_count(rec['tree']) > 300:
                     case['too_ambiguous'] = case.get('too_ambiguous', 0) + 1
                     continue
@@ -114,7 +126,7 @@ def observe_case(spec):
                     rec['collrun'] = True
                     try:
                         with O.budget(20):
-                            rec['coll'] = [tree4(x) for x in CollapseAmbiguities().transform(t)][:300]
+                            rec['coll'] = [T4(x) for x in CollapseAmbiguities().transform(t)][:300]
                     except (Exception, O.Hang) as ex:
                         rec['collok'] = False
                         rec['collexc'] = type(ex).__name__
@@ -123,7 +135,7 @@ def observe_case(spec):
                 exp.append({'cfg': name, 'out': 1, 'tree': ['N', '', 0, []], 'collrun': False, 'collok': True, 'coll': []})
             except (Exception, O.Hang) as ex:
                 exp.append({'cfg': name, 'out': 2, 'tree': ['N', '', 0, []], 'exc': type(ex).__name__, 'collrun': False, 'collok': True, 'coll': []})
-        case['inputs'].append({'w': list(w), 'obs': obs, 'exp': exp})
+        case['inputs'].append({'w': list(w), 'obs': obs, 'exp': exp, 'toks': toks, 'text': text, 'vmap': mtok.vmap(text, toks) if mt else []})
     return case
 
 
@@ -149,7 +161,7 @@ def specs(tier, rng, explicit=False):
 
 
 def batch_of(cases):
-    return {'cases': [{'G': c['G'], 'cyclic': c['cyclic'], 'inputs': [{'w': i['w'], 'obs': [{k: o[k] for k in ('cfg', 'out', 'tree', 'must')} for o in i['obs']],
+    return {'cases': [{'G': c['G'], 'cyclic': c['cyclic'], 'multitok': bool(c.get('multitok')), 'inputs': [{'w': i['w'], 'toks': i.get('toks', []), 'vmap': i.get('vmap', []), 'obs': [{k: o[k] for k in ('cfg', 'out', 'tree', 'must')} for o in i['obs']],
                                                                       'exp': [{k: o[k] for k in ('cfg', 'out', 'tree', 'collrun', 'collok', 'coll', 'one', 'isamb') if k in o} for o in i['exp']]} for i in c['inputs']]} for c in cases]}
 
 
@@ -177,12 +189,16 @@ def judge(pid, cases, ev, rep, tmp, name, module='TraceTrees'):
             inp = c['inputs'][k - 1]
             cfg = clause.split(':')[0]
             rep.violation({'property': pid, 'family': c['family'], 'grammar': c['gtext'], 'keep_all_tokens': c['ka'], 'maybe_placeholders': c['ph'],
-                           'w': inp['w'], 'text': E.to_text(inp['w']), 'clause': clause, 'spec_tree_count': v[3] if len(v) > 3 else None,
+                           'w': inp['w'], 'text': inp.get('text', ''), 'clause': clause, 'spec_tree_count': v[3] if len(v) > 3 else None,
                            'observed': [o for o in inp['obs'] + inp['exp'] if o['cfg'] == cfg][:2], 'spec': strip_spec(c['spec'], inp['w'])})
 
 
 def strip_spec(spec, w):
     s = dict(spec)
+    if s.get('multitok'):
+        k = [list(x) for x in s['inputs']].index(list(w))
+        s['toks'] = [s['toks'][k]]
+        s['texts'] = [s['texts'][k]]
     s['inputs'] = [list(w)]
     return s
 
@@ -208,7 +224,11 @@ def run(pid, tier, seed, replay):
         ev.add_tlc('MC_EBNF (known answers from docs/tree_construction.md, counts)', res, 'design')
         if not res.ok:
             raise C.MachineryFailure('MC_EBNF: %s violated - the specification itself is wrong' % res.violated)
-        cases = C.pmap(observe_case, specs(tier, rng, explicit=(pid == 'C04')))
+        sps = specs(tier, rng, explicit=(pid == 'C04'))
+        if pid == 'C03':
+            from . import mtok
+            sps += mtok.specs(C.scale(400 if tier == 'quick' else 4000), rng)
+        cases = C.pmap(observe_case, sps)
         for c in cases:
             ev.count('skipped:' + c['skip'].split(':')[0] if c['skip'] else 'grammar_option_settings')
             ev.count('inputs_skipped_more_than_80_derivations', c.get('too_ambiguous', 0))
@@ -227,7 +247,7 @@ def run(pid, tier, seed, replay):
         ev.cov['traces_validated_against_impl'] = ev.cov['counts'].get('parses', 0) + ev.cov['counts'].get('explicit_parses', 0)
         c = cases[len(cases) // 2]
         i = next((i for i in c['inputs'] if any(o['out'] == 0 for o in i['obs'])), c['inputs'][0])
-        ev.sample({'grammar': c['gtext'], 'keep_all_tokens': c['ka'], 'maybe_placeholders': c['ph'], 'text': E.to_text(i['w']),
+        ev.sample({'grammar': c['gtext'], 'keep_all_tokens': c['ka'], 'maybe_placeholders': c['ph'], 'text': i['text'],
                    'observed': (i['exp'] if pid == 'C04' else i['obs'])[:2]})
         judge(pid, cases, ev, rep, tmp, 'sweep')
         extra(pid, tier, rng, ev, rep, tmp)
